@@ -839,3 +839,67 @@ func VerifC04FieldMapChunks() {
 	o4, e4 := c04Drain(sr4)
 	vassert(e4 == nil && o4 == want, "Transform of the input split by key agrees with Invoke of the whole input")
 }
+
+// fan-in of two nodes into END whose outputs do not merge cleanly: the same key in both maps, or a nil value under a
+// key; whatever the verdict, the four paradigms must give the same one
+func c04FanInOdd(kind int) {
+	ctx := context.Background()
+	vcfg("fifo", 1)
+	vcfg("selectfirst", 1)
+	g := NewGraph[string, map[string]any]()
+	_ = g.AddLambdaNode("a", InvokableLambda(func(ctx context.Context, in string) (map[string]any, error) {
+		if kind == 0 {
+			return map[string]any{"k": "A"}, nil
+		}
+		return map[string]any{"ka": nil}, nil
+	}))
+	_ = g.AddLambdaNode("b", InvokableLambda(func(ctx context.Context, in string) (map[string]any, error) {
+		if kind == 0 {
+			return map[string]any{"k": "B"}, nil
+		}
+		return map[string]any{"kb": "B"}, nil
+	}))
+	_ = g.AddEdge(START, "a")
+	_ = g.AddEdge(START, "b")
+	_ = g.AddEdge("a", END)
+	_ = g.AddEdge("b", END)
+	r, err := g.Compile(ctx, WithNodeTriggerMode(AllPredecessor))
+	vassert(err == nil, "fan-in graph compiles")
+	drain := func(sr *schema.StreamReader[map[string]any]) (map[string]any, error) {
+		var chunks []map[string]any
+		defer sr.Close()
+		for i := 0; i < 8; i++ {
+			c, e := sr.Recv()
+			if e == io.EOF {
+				break
+			}
+			if e != nil {
+				return nil, e
+			}
+			chunks = append(chunks, c)
+		}
+		if len(chunks) == 0 {
+			return nil, nil
+		}
+		return concatStreamReader(schema.StreamReaderFromArray(chunks))
+	}
+	_, e0 := r.Invoke(ctx, "x")
+	var e1, e3 error
+	if sr, e := r.Stream(ctx, "x"); e != nil {
+		e1 = e
+	} else {
+		_, e1 = drain(sr)
+	}
+	_, e2 := r.Collect(ctx, schema.StreamReaderFromArray([]string{"x"}))
+	if sr, e := r.Transform(ctx, schema.StreamReaderFromArray([]string{"x"})); e != nil {
+		e3 = e
+	} else {
+		_, e3 = drain(sr)
+	}
+	what := []string{"the same key in both maps", "a nil value under a key"}[kind]
+	vassert((e0 == nil) == (e1 == nil) && (e0 == nil) == (e2 == nil) && (e0 == nil) == (e3 == nil),
+		"fan-in with "+what+": Invoke, Stream, Collect and Transform all succeed or all fail")
+}
+
+func VerifC04FanInDuplicateKey() { c04FanInOdd(0) }
+func VerifC04FanInNilValue()     { c04FanInOdd(1) }
